@@ -99,9 +99,9 @@ func StatePredicates(prefix string) {
 		verifrt.Region(prefix+"reach:tx1-committed-on-two-targets", S.Txs[0].State == txCOMMITTED && S.Txs[0].Targets[0] && S.Txs[0].Targets[NT-1])
 	}
 	if NX > 1 {
-		verifrt.Region(prefix+"reach:tx2-committed", S.Txs[1].State == txCOMMITTED || S.Txs[1].State == txAPPLIED)
-		verifrt.Region(prefix+"reach:tx2-applied", S.Txs[1].State == txAPPLIED)
-		verifrt.Region(prefix+"reach:tx2-failed-aborted", S.Txs[1].State == txFAILED && txTerminal(1))
+		verifrt.Region(prefix+"reach:tx2-committed", S.Txs[NX-1].State == txCOMMITTED || S.Txs[NX-1].State == txAPPLIED)
+		verifrt.Region(prefix+"reach:tx2-applied", S.Txs[NX-1].State == txAPPLIED)
+		verifrt.Region(prefix+"reach:tx2-failed-aborted", S.Txs[NX-1].State == txFAILED && txTerminal(1))
 	}
 	verifrt.Region(prefix+"reach:crashed", S.Crashes > 0)
 	verifrt.Region(prefix+"reach:fault", S.Faults > 0)
@@ -187,12 +187,14 @@ func StepContracts(pre *State, choice int) {
 				verifrt.Assert(a.Committed == pp.Prev, "c02-merge-needs-predecessor-committed")
 				verifrt.Assert(b.Committed == uint8(merger+1), "c02-merge-stamps-own-index")
 				verifrt.Assert(pp.Commit.Present && !pp.Abort.Present && !pp.Apply.Present, "c01-merge-only-in-commit-phase")
-				// C05: nothing is merged that the model has not accepted
-				verifrt.Assert(pp.Validate.Present && pp.Validate.State == pvVALIDATED, "c05-merge-needs-validated-proposal")
 			}
 		}
 		// C02/C10: index and term fields never decrease in a reconcile step
-		if a.Exists && b.Exists {
+		linked := true // structural invariant of the per-target chain: a predecessor index is below the own index
+		for i := 0; i < NX; i++ {
+			linked = linked && pre.Props[t][i].Prev < uint8(i+1)
+		}
+		if a.Exists && b.Exists && linked {
 			verifrt.Assert(b.Applied >= a.Applied, "c02-applied-index-never-decreases")
 			verifrt.Assert(b.Proposed >= a.Proposed, "c02-proposed-index-never-decreases")
 			verifrt.Assert(b.Term >= a.Term, "c10-term-never-decreases")
@@ -209,6 +211,15 @@ func StepContracts(pre *State, choice int) {
 				verifrt.Assert(pa.Prev == 0 || a.Committed == pa.Prev, "c05-validation-on-top-of-predecessor-commit")
 				verifrt.Assert(a.Values == b.Values, "c05-validation-leaves-configuration-untouched")
 			}
+			// C01/C09: an aborted proposal moves both indexes of its target past itself (otherwise every later
+			// proposal of that target waits for it forever)
+			wasAb := pa.Abort.Present && pa.Abort.State == int32(configapi.ProposalAbortPhase_ABORTED)
+			isAb := pb.Abort.Present && pb.Abort.State == int32(configapi.ProposalAbortPhase_ABORTED)
+			if pa.Exists && !wasAb && isAb {
+				verifrt.Cover("aborted")
+				verifrt.Assert(b.Committed >= uint8(i+1) && b.Applied >= uint8(i+1), "c09-aborted-proposal-passes-both-indexes")
+				verifrt.Assert(a.Values == b.Values, "c01-abort-never-touches-values")
+			}
 			// C11: an apply that failed is recorded with a failure, advances the applied index, leaves applied values alone
 			wasF := pa.Apply.Present && pa.Apply.State == paFAILED
 			isF := pb.Apply.Present && pb.Apply.State == paFAILED
@@ -224,14 +235,28 @@ func StepContracts(pre *State, choice int) {
 	// C01: a transaction enters Commit only if every one of its proposals is VALIDATED, never if one FAILED
 	for i := 0; i < NX; i++ {
 		ta, tb := &pre.Txs[i], &S.Txs[i]
-		if ta.Exists && !ta.Commit.Present && tb.Commit.Present {
-			verifrt.Cover("tx-commit-opened")
+		tvA := ta.Validate.Present && ta.Validate.State == int32(configapi.TransactionValidatePhase_VALIDATED)
+		tvB := tb.Validate.Present && tb.Validate.State == int32(configapi.TransactionValidatePhase_VALIDATED)
+		if ta.Exists && !tvA && tvB {
+			verifrt.Cover("tx-validated")
 			tg := txTargetsOf(pre, i)
 			for t := 0; t < NT; t++ {
 				if tg[t] {
 					pp := &pre.Props[t][i]
-					verifrt.Assert(pp.Exists && pp.Validate.Present && pp.Validate.State == pvVALIDATED, "c01-commit-needs-all-proposals-validated")
+					verifrt.Assert(pp.Exists && pp.Validate.Present && pp.Validate.State == pvVALIDATED, "c01-transaction-validated-needs-all-proposals-validated")
 				}
+			}
+		}
+		if ta.Exists && !ta.Commit.Present && tb.Commit.Present {
+			verifrt.Cover("tx-commit-opened")
+			verifrt.Assert(tvA && !ta.Abort.Present, "c01-commit-opens-only-after-transaction-validated")
+		}
+		// C05/C01: a proposal's commit phase is opened only by its transaction, in the transaction's commit phase
+		for t := 0; t < NT; t++ {
+			pa, pb := &pre.Props[t][i], &S.Props[t][i]
+			if pa.Exists && !pa.Commit.Present && pb.Commit.Present {
+				verifrt.Assert(choice == ChTx+i, "c05-proposal-commit-opened-only-by-its-transaction")
+				verifrt.Assert(ta.Commit.Present && !ta.Abort.Present, "c05-proposal-commit-opened-only-in-transaction-commit-phase")
 			}
 		}
 		// C08/C11: a transaction turns FAILED only with a recorded failure
